@@ -34,6 +34,7 @@ import (
 	"github.com/bartventer/httpcache/verifsim/simgo"
 	"github.com/bartventer/httpcache/verifsim/simos"
 	"github.com/bartventer/httpcache/verifsim/simrand"
+	"github.com/bartventer/httpcache/verifsim/simsync"
 )
 
 // ---------------- recorded history ----------------
@@ -714,6 +715,22 @@ func (r *Run) goHook() {
 }
 
 // randHook is the scheduling point of the simulated crypto/rand.
+// lockHook: a goroutine of the library found a sync.Mutex / RWMutex held (simsync). It parks, for a span of
+// virtual time that doubles with every attempt, and tries again; under the pairing scheduler of the race build
+// two goroutines really run side by side and the runtime's own blocking is used.
+func (r *Run) lockHook(attempt int) bool {
+	if r.Sim == nil || r.Sim.Aborted() || r.Sim.Pair {
+		return false
+	}
+	d := time.Duration(0)
+	if attempt > 0 {
+		d = time.Microsecond << min(attempt, 20)
+	}
+	r.probe("lock-held-across-seam")
+	r.Sim.YieldAfter("lock:wait", d)
+	return !r.Sim.Aborted()
+}
+
 func (r *Run) randHook(what string) {
 	if r.Sim == nil || r.Sim.Aborted() {
 		return
@@ -801,6 +818,7 @@ func RunTsim(scn *Scenario) *Run {
 	simos.Reset(diskHook{r})
 	simrand.SetHook(r.randHook)
 	simgo.SetHook(r.goHook)
+	simsync.SetHook(r.lockHook)
 	simos.WriteChunk = scn.WChunk
 
 	var wg sync.WaitGroup
@@ -896,6 +914,7 @@ func RunTsim(scn *Scenario) *Run {
 	simos.SetHook(nil)
 	simrand.SetHook(nil)
 	simgo.SetHook(nil)
+	simsync.SetHook(nil)
 	curRunMu.Lock()
 	curRun = nil
 	curRunMu.Unlock()
